@@ -45,13 +45,16 @@ EXPLANATION = (
     "[sub-negotiation payload] subnegotiation/single-bytes (FINITE-EXHAUSTIVE, same byte-wise domain argument, every payload byte value); subnegotiation/iac-doubled, "
     "framing (BOUNDED probes). "
     "[receiver decodes what the sender encodes, under every segmentation] reader/transition-table (FINITE-EXHAUSTIVE): checked on the code that dataReceived is one loop "
-    "over the bytes of the chunk whose only memory between bytes is on the instance (state, command, commands) and that no local carries state (reader/state-on-instance, "
+    "over the bytes of the chunk, that the chunk is read nowhere else (no look at the chunk as a whole - a bulk / fast path makes behaviour depend on where the chunk "
+    "boundaries fall; then the rule says so in a note and reports the same runs as reader-samples/transition-table, BOUNDED, and the segmentation corpus decides), that "
+    "its only memory between bytes is on the instance (state, command, commands) and that no local carries state (reader/state-on-instance, "
     "STRUCTURAL: every local read in a state's branch is bound earlier in the same branch) - so behaviour on every stream and every segmentation is the composition of "
     "(state, byte) steps; every one of the 6 x 256 pairs that RFC 854 specifies is evaluated from prefixes that set every register value, with a closing sequence that "
     "makes the registers observable, against the reference decoder. reader/who-writes-state (only dataReceived and the private helpers only it calls write the state), "
     "reader/state-has-branch (every state assigned has a branch; table agreement) - STRUCTURAL. BOUNDED witnesses: reader/round-trip and reader/flush-at-chunk-end "
     "(exhaustive finite corpus of CR-free strings rich in IAC / LF / command bytes, interleaved commands and sub-negotiations, whole / byte-wise / every two-way "
-    "split), reader/delivery-unchanged, reader/unknown-state-raises. "
+    "split, including doubled-IAC runs of 4 and 6 bytes cut at every offset), reader/delivery-unchanged, reader/unknown-state-raises. Module-level regular expressions "
+    "compiled from constant patterns are evaluated by delegating the matching to CPython's re. "
     "[constants] constants/rfc854 - STRUCTURAL. "
     "Bounded evidence only: none of the claimed clauses when the domain arguments hold; the sub-negotiation buffer is assumed to be treated uniformly in its content "
     "(sampled with 0 / 1 / 3 bytes). Not decided: application data containing CR (excluded by the statement)."
@@ -81,6 +84,8 @@ def telnet_consts(mod):
                     env[st.targets[0].id] = const_eval(v, env)
                 except NotConst:
                     pass
+    from sa.props._lib_h import module_regexes
+    env.update(module_regexes(mod, env))       # module-level patterns compiled from constants (matching is delegated to CPython's re)
     return env
 
 
@@ -722,7 +727,8 @@ def check(ctx):
             ctx.ok("reader/round-trip", qd, f"{n_wires} wires x segmentations = {n_runs} runs agree with the RFC 854 reference decoder")
         if not any(r == "reader/flush-at-chunk-end" for r, _ in reported):
             ctx.ok("reader/flush-at-chunk-end", qd + " | <end of chunk>")
-        ctx.floor("reader/round-trip", n_wires, 900, "wires")
+        if not reported:      # the corpus walk stops early once three distinct diagnoses were made
+            ctx.floor("reader/round-trip", n_wires, 900, "wires")
 
     with ctx.section('reader/transition-table'):
         ctx.need(_ok_rd, 'anchors of reader (section skipped)')
@@ -736,7 +742,12 @@ def check(ctx):
                 regs |= {t.attr for st in ast.walk(f_k) if isinstance(st, (ast.Assign, ast.AugAssign)) for t in (st.targets if isinstance(st, ast.Assign) else [st.target])
                          if isinstance(t, ast.Attribute) and isinstance(t.value, ast.Name) and t.value.id == "self"}
         carried = [f_.construct for f_ in ctx.findings if f_.rule == "reader/state-on-instance"]
+        chunk = dr.args.args[1].arg if len(dr.args.args) > 1 else None
+        reads = [x for x in ast.walk(dr) if isinstance(x, ast.Name) and x.id == chunk and isinstance(x.ctx, ast.Load)]
+        only_iter = per_byte and len(reads) == 1 and any(x is reads[0] for x in ast.walk(loops_t[0].iter))
         why_t = None if per_byte else "dataReceived is not a single loop over iterbytes(data)"
+        why_t = why_t or (None if only_iter else f"the chunk is also looked at as a whole ({len(reads) - 1} reads of `{chunk}` outside the loop header): behaviour depends on "
+                          "where the chunk boundaries fall, not only on (state, byte)")
         why_t = why_t or (None if regs <= {"state", "command", "commands"} else f"unexpected parser registers {sorted(regs - {'state', 'command', 'commands'})}")
         why_t = why_t or (None if not carried else "a local carries parser state from one byte to the next")
         opt_ = [C[k] for k in ("WILL", "WONT", "DO", "DONT")]
@@ -925,6 +936,13 @@ MUTANTS = [
            '        self._write(IAC + SB + about + data + IAC + SE)', expect_rule='subnegotiation/single-bytes'),
     Mutant('fx-lf-translation-dropped', T, '        self.transport.write(data.replace(b"\\n", b"\\r\\n"))',
            '        self.transport.write(data)', expect_rule='writer/single-bytes'),
+    # a bulk path for chunks that "contain no commands": the chunk is looked at as a whole, so the per-(state, byte) argument no longer applies and the
+    # segmentation probes must decide
+    Mutant("bulk-path-when-iac-count-is-even", T, '    def dataReceived(self, data):\n        appDataBuffer = []\n\n        for b in iterbytes(data):\n            if self.state == "data":',
+           '    def dataReceived(self, data):\n        if self.state == "data" and b"\\r" not in data and data.count(IAC) % 2 == 0:\n            if data:\n                self.applicationDataReceived(data.replace(IAC * 2, IAC))\n            return\n        appDataBuffer = []\n\n        for b in iterbytes(data):\n            if self.state == "data":', expect_rule="reader/round-trip"),
+    Mutant("regex-bulk-path-misses-a-trailing-iac", T, '    def dataReceived(self, data):\n        appDataBuffer = []\n\n        for b in iterbytes(data):\n            if self.state == "data":',
+           '    def dataReceived(self, data):\n        if self.state == "data" and _commandStart.search(data) is None:\n            if data:\n                self.applicationDataReceived(data.replace(IAC * 2, IAC))\n            return\n        appDataBuffer = []\n\n        for b in iterbytes(data):\n            if self.state == "data":', expect_rule="reader/round-trip",
+           more=[(T, 'import struct\n', 'import re\nimport struct\n'), (T, 'class Telnet(protocol.Protocol):\n', '_commandStart = re.compile(rb"\\xff[^\\xff]|\\r")\n\n\nclass Telnet(protocol.Protocol):\n')]),
 ]
 SILENT = [
     Silent("flush-moved-into-private-helper", T, "                command = self.command\n                del self.command\n                if appDataBuffer:\n                    self.applicationDataReceived(b\"\".join(appDataBuffer))\n                    del appDataBuffer[:]\n                self.commandReceived(command, b)\n",
@@ -949,4 +967,9 @@ SILENT = [
            "                if b == IAC:\n                    self.state = \"data\"\n                    appDataBuffer.extend([IAC])\n"),
     Silent("writeSequence-escapes-per-element", T, "    def writeSequence(self, seq):\n        self.write(b\"\".join(seq))\n\n\nclass TelnetBootstrapProtocol",
            "    def writeSequence(self, seq):\n        self.transport.writeSequence([s.replace(IAC, IAC * 2).replace(b\"\\n\", b\"\\r\\n\") for s in seq])\n\n\nclass TelnetBootstrapProtocol"),
+    Silent("bulk-path-for-chunks-without-iac-or-cr", T, '    def dataReceived(self, data):\n        appDataBuffer = []\n\n        for b in iterbytes(data):\n            if self.state == "data":',
+           '    def dataReceived(self, data):\n        if self.state == "data" and IAC not in data and b"\\r" not in data:\n            if data:\n                self.applicationDataReceived(data)\n            return\n        appDataBuffer = []\n\n        for b in iterbytes(data):\n            if self.state == "data":'),
+    Silent("regex-bulk-path-for-chunks-of-whole-pairs", T, '    def dataReceived(self, data):\n        appDataBuffer = []\n\n        for b in iterbytes(data):\n            if self.state == "data":',
+           '    def dataReceived(self, data):\n        if self.state == "data" and _plainChunk.match(data):\n            if data:\n                self.applicationDataReceived(data.replace(IAC * 2, IAC))\n            return\n        appDataBuffer = []\n\n        for b in iterbytes(data):\n            if self.state == "data":',
+           more=[(T, 'import struct\n', 'import re\nimport struct\n'), (T, 'class Telnet(protocol.Protocol):\n', '_plainChunk = re.compile(rb"(?:[^\\xff\\r]|\\xff\\xff)*\\Z")\n\n\nclass Telnet(protocol.Protocol):\n')]),
 ]
